@@ -24,6 +24,16 @@ func (t *Dense) Transpose() error {
 		return errors.Errorf("Cannot Transpose() a non-contiguous view in place. Materialize() it first")
 	}
 
+	// refuse before anything is changed: the deferred cleanups below install the new strides
+	// and drop the saved pattern, which is only right once the data has been moved
+	var transposer Transposer
+	if !t.IsVector() {
+		var ok bool
+		if transposer, ok = t.e.(Transposer); !ok {
+			return errors.Errorf("Engine does not support Transpose()")
+		}
+	}
+
 	defer func() {
 		t.old.zero()
 		t.transposeWith = nil
@@ -50,12 +60,6 @@ func (t *Dense) Transpose() error {
 	}
 
 	// actually move data
-	var e Engine = t.e
-
-	transposer, ok := e.(Transposer)
-	if !ok {
-		return errors.Errorf("Engine does not support Transpose()")
-	}
 	return transposer.Transpose(t, expStrides)
 }
 
